@@ -44,6 +44,10 @@ var c03Targets = []string{"aa", "bb", "_", "<", ".", "ee"}
 var c03Sels = []string{"1", "2", "*"}
 var c03Inputs = []string{"1", "2", "3", ""}
 
+// c03LastInputs: additional inputs tried in the last position of a history only - a selector followed by a
+// blank (must not be taken for the selector) and an input with a formatting verb (shown verbatim by the catch page).
+var c03LastInputs = []string{"1 ", "5%d"}
+
 func c03Tables() [][]c03Line {
 	var kinds []c03Line
 	for _, t := range c03Targets {
@@ -292,7 +296,11 @@ func c03Run(c *mc.Ctx) {
 						}
 						return
 					}
-					for _, in := range c03Inputs {
+					ins := c03Inputs
+					if len(hist) == maxd-1 {
+						ins = append(append([]string{}, ins...), c03LastInputs...)
+					}
+					for _, in := range ins {
 						hist = append(hist, in)
 						rec()
 						hist = hist[:len(hist)-1]
@@ -302,7 +310,7 @@ func c03Run(c *mc.Ctx) {
 			}
 		}
 		if ti%900 == 7 {
-			c.Sample(map[string]any{"table": t, "inputs": "all histories of depth 3 over 1,2,3,''", "placed_at_depth": "0 and 1"})
+			c.Sample(map[string]any{"table": t, "inputs": "all histories of depth 3 over 1,2,3,'' (last position also '1 ' and '5%d')", "placed_at_depth": "0 and 1"})
 		}
 		if c.TimeUp() {
 			return
